@@ -4,6 +4,7 @@
   mode / index / ipList / ipMaps; the unlock is deferred right after the lock; nothing guarded is
   touched before the lock; `matchAll` is an atomic.Bool used only through Load/Store.
 -/
+import Glb.Generated.StatusFilterLock
 import Glb.Generated.FilterLock
 
 namespace Glb.Tie.FilterLock
@@ -27,5 +28,8 @@ theorem state_and_methods :
     filterFields = ["mutex sync.RWMutex", "matchAll *atomic.Bool", "mode uint32", "index int",
       "ipList [listSize][2]uint32", "ipMaps [32]map[uint32]bool"] ∧
     filterMethods = ["Add", "Remove", "Contains"] := by decide
+
+/-- the extractor of this area recognised the source as it is on this run (a refusal removes `ok`) -/
+theorem extractor_ok : Glb.Generated.StatusFilterLock.ok = () := rfl
 
 end Glb.Tie.FilterLock
